@@ -356,7 +356,7 @@ func c19Globals(p *load.Prog, r *oblig.Run) {
 						}
 						if cal.Pkg != nil && cal.Pkg.Pkg.Path() == "sync" && (cal.Name() == "Store" || cal.Name() == "LoadOrStore") {
 							// keyed by the document?
-							if mi, ok := cc.Args[1].(*ssa.MakeInterface); ok && docType != nil && types.Identical(mi.X.Type(), types.NewPointer(docType.Type())) {
+							if mi, ok := cc.Args[1].(*ssa.MakeInterface); ok && docType != nil && (types.Identical(mi.X.Type(), types.NewPointer(docType.Type())) || structKeyHoldsDocument(mi.X, docType.Type())) {
 								continue
 							}
 							bad = "sync.Map entry stored under a key that is not the document in " + load.FuncName(fn) + " at " + p.Pos(x.Pos())
@@ -564,6 +564,37 @@ func onErrorPath(c ssa.CallInstruction) bool {
 		}
 		if len(b.Succs[0].Preds) == 1 && b.Succs[0].Dominates(c.Block()) {
 			return true
+		}
+	}
+	return false
+}
+
+// structKeyHoldsDocument: the key is a struct value one of whose fields is the *Document (a comparable composite
+// key such as {document, visibility} is still a per-document key).
+func structKeyHoldsDocument(v ssa.Value, doc types.Type) bool {
+	ld, ok := v.(*ssa.UnOp)
+	if !ok || ld.Op != token.MUL {
+		return false
+	}
+	al, ok := ld.X.(*ssa.Alloc)
+	if !ok {
+		return false
+	}
+	st, ok := al.Type().(*types.Pointer).Elem().Underlying().(*types.Struct)
+	if !ok {
+		return false
+	}
+	for _, ref := range *al.Referrers() {
+		fa, ok := ref.(*ssa.FieldAddr)
+		if !ok || !types.Identical(st.Field(fa.Field).Type(), types.NewPointer(doc)) {
+			continue
+		}
+		for _, r2 := range *fa.Referrers() {
+			if s2, ok := r2.(*ssa.Store); ok && s2.Addr == ssa.Value(fa) {
+				if _, isK := s2.Val.(*ssa.Const); !isK {
+					return true
+				}
+			}
 		}
 	}
 	return false
